@@ -339,6 +339,10 @@ EXTRA_F = {
  'C18': 'The finaliser of the spill file unlinks it whenever it exists (paths of __del__, R18.2).',
  'C20': 'No early return on an empty lookup where the probe loop pads absent keys (R20.10); max() / min() over one item per data row need a default (R20.7).',
 }
+EXTRA_G = {
+ 'C12': 'The record handed to a user callable does not wrap a container the operator resizes under the names of the unchanged header (R12.8).',
+ 'C19': 'A policy handler narrowed to fewer exception classes than Exception is a violation; errorvalue reaches the view unchanged (R19.2).',
+}
 ROBUST = (' All rules are evaluated on functions in expanded form (bounded inlining of helpers unknown to the rules) and, where '
           'they evaluate decision ladders, on canonical tests and effect sequences rather than statement texts (DESIGN.md §9).')
 for _p, _t in EXTRA_D.items():
@@ -352,6 +356,8 @@ for _p, _t in EXTRA_D.items():
 for _p, _t in EXTRA_E.items():
     CLAIMS[_p]['text'] = CLAIMS[_p]['text'] + ' ' + _t
 for _p, _t in EXTRA_F.items():
+    CLAIMS[_p]['text'] = CLAIMS[_p]['text'] + ' ' + _t
+for _p, _t in EXTRA_G.items():
     CLAIMS[_p]['text'] = CLAIMS[_p]['text'] + ' ' + _t
 
 PENDING = 'check not yet implemented in this revision (work in progress; see DESIGN.md for the planned rules)'
